@@ -1227,12 +1227,17 @@ func (s *State) evalArrayInfixExpression(operator token.Type, left, right object
 		}
 		return object.NewArray(result)
 	case token.PLUS: // concat / append
+		// Always build a new slice: append()ing to leftVal could write into spare capacity
+		// shared with other arrays made from the same left operand.
 		if right.Type() != object.ARRAY {
-			return object.NewArray(append(leftVal, object.Value(right)))
+			result := object.MakeObjectSlice(len(leftVal) + 1)
+			result = append(result, leftVal...)
+			return object.NewArray(append(result, object.Value(right)))
 		}
 		rightArr := object.Elements(right)
-		object.MustBeOk(len(leftVal) + len(rightArr))
-		return object.NewArray(append(leftVal, rightArr...))
+		result := object.MakeObjectSlice(len(leftVal) + len(rightArr))
+		result = append(result, leftVal...)
+		return object.NewArray(append(result, rightArr...))
 	default:
 		return s.Errorf("unknown operator: %s %s %s",
 			left.Type(), operator, right.Type())
